@@ -20,7 +20,7 @@ pub fn property() -> Property {
             "reference codec and reference scheme reader (harness/src/reference)",
             "tokio paused clock / current-thread scheduler; in-memory pipe of the harness",
         ],
-        families: vec![(Box::new(WireFam), 40_000, 320_000)],
+        families: vec![(Box::new(WireFam), 200_000, 1_000_000)],
     }
 }
 
